@@ -1,6 +1,7 @@
 import SdJwt.Lemmas.IssuerL
 import SdJwt.Lemmas.IssueAll
 import SdJwt.Lemmas.Defined
+import SdJwt.Lemmas.ObjectsL
 /-!
 # C14 — issuing is total, side-effect free and repeatable
 
@@ -129,3 +130,43 @@ example :
     · intro b hb; subst hb; decide
     · intro b hb; cases hb
 
+
+
+/-! ## The issuer as an object: histories -/
+
+/-- **issuing does not change the issuer object**: what the object holds after any history of
+calls is what it holds after the same history with every `encode` call removed — so what a later
+`encode` returns (header, payload, disclosures: `IssuerObj.observe`) does not depend on whether,
+when or how often `encode` was called before -/
+theorem C14_encode_leaves_object (s : IssuerObj) (ops : List IssuerOp) :
+    s.run ops = s.run (ops.filter (fun o => !o.isEncode)) ∧
+    ∀ mk drawn, (s.run ops).observe mk drawn = (s.run (ops.filter (fun o => !o.isEncode))).observe mk drawn := by
+  have h := IssuerObj.run_drop_encodes ops s
+  exact ⟨h, fun mk drawn => by rw [← h]⟩
+
+/-- **what the object holds after a history, field by field**: the paths are those of the
+`disclosable` calls in call order (appended to what was there); header, decoy maximum and bound key
+are those of the *last* call that set them (an earlier value never survives a later call, whatever
+happened in between); the claims are the original ones with `exp` = the last requested `now + n`.
+Each setter touches its own field only. -/
+theorem C14_history (s : IssuerObj) (ops : List IssuerOp) :
+    (s.run ops).paths = s.paths ++ pathsOf ops ∧
+    (s.run ops).header = (lastHeader ops).getD s.header ∧
+    (s.run ops).maxDecoys = (lastDecoy ops).orElse (fun _ => s.maxDecoys) ∧
+    (s.run ops).cnf = (lastCnf ops).orElse (fun _ => s.cnf) ∧
+    (s.run ops).claims = (match lastExp ops with
+      | some v => setExp v s.claims
+      | none => s.claims) :=
+  ⟨IssuerObj.run_paths ops s, IssuerObj.run_header ops s, IssuerObj.run_decoy ops s,
+   IssuerObj.run_cnf ops s, IssuerObj.run_claims ops s⟩
+
+/-- an expiry requested as `n` seconds from `now` is recorded as `now + n`, replacing whatever `exp`
+the claims carried and whatever was requested before -/
+theorem C14_expiry_recorded (ms : List (String × J)) (n now : Int) :
+    aget "exp" (match setExp (now + n) (.obj ms) with | .obj m => m | _ => []) = some (.num (now + n) 0) := by
+  simp [setExp, aget_ains_self]
+
+example : (({ claims := .obj [("exp", .num 5 0)], paths := [], maxDecoys := none, header := .null, cnf := none } : IssuerObj).run
+    [.expiresIn 60 1000, .encode, .header (.str "h1"), .disclosable "/a", .encode, .expiresIn 3600 2000,
+     .header (.str "h2"), .encode]).claims = .obj [("exp", .num 5600 0)] := by
+  simp [IssuerObj.run, IssuerObj.step, setExp, ains]
